@@ -265,6 +265,8 @@ def shapes(tier, seed):
     out.append({'h': 'session', 'variant': 'usb', 'by': None, 'ops': ['shell', ['push', {'size': 3000}]], 'nshort': 1})
     for k in range(3, 40, (2 if tier == 'quick' else 1)):
         out.append({'h': 'session', 'variant': 'usb', 'by': 'serial', 'ops': ['shell', 'stat'], 'unplug': k})
+    for k in range(4, 64, (4 if tier == 'quick' else 1)):
+        out.append({'h': 'session', 'variant': 'usb', 'by': None, 'ops': [['pull', {}], ['push', {'size': 3000}]], 'unplug': k})
     for by in (None, 'serial', 'port'):
         out.append({'h': 'session', 'variant': 'usb', 'by': by, 'ops': ['shell', 'stat', ['pull', {}], ['push', {'size': 5000}]], 'others': 1 if tier == 'quick' else 2})
     return out
